@@ -223,12 +223,12 @@ def check_handed(c, when):
 
 def junk_handed(c, labels, keep=()):
     """B: the caller re-uses its arrays / lists for something else.  Read-only arrays cannot be overwritten (skipped); `keep`:
-    names of arguments that have not been handed over yet."""
+    name prefixes of arguments that are left alone (not handed over yet / shift vectors)."""
     n = 0
-    kept = [item for item in c.handed if item[0] in keep]
+    kept = [item for item in c.handed if item[0].startswith(tuple(keep))] if keep else []
     for item in c.handed:
         name, obj, snap = item
-        if name in keep:
+        if keep and name.startswith(tuple(keep)):
             continue
         if isinstance(obj, np.ndarray):
             if not obj.flags.writeable:
@@ -242,6 +242,8 @@ def junk_handed(c, labels, keep=()):
         else:
             obj[:] = [None] * len(obj)
         n += 1
+        if name.startswith('shift'):
+            labels.add('mut_inputs_shift')
     c.handed = kept
     if n:
         labels.add('mut_inputs')
@@ -268,9 +270,12 @@ def make_ucell(am, c, uform, symbols):
         return am.System(atoms=am.Atoms(pos=np.asfortranarray(c.rel.copy()), atype=c.types.copy()), box=am.Box(vects=np.asfortranarray(c.V.copy())),
                          scale=True, symbols=symbols)
     if uform == 'readonly':
-        rel, V = c.rel.copy(), c.V.copy()
-        rel.setflags(write=False); V.setflags(write=False)
-        return am.System(atoms=am.Atoms(pos=rel, atype=c.types.copy()), box=am.Box(vects=V), scale=True, symbols=symbols)
+        # the caller's cell is read-only once it is built (building a System on read-only arrays is not C13's subject)
+        cell = am.System(atoms=am.Atoms(pos=c.rel.copy(), atype=c.types.copy()), box=am.Box(vects=c.V.copy()), scale=True, symbols=symbols)
+        cell.atoms.pos.setflags(write=False)
+        cell.atoms.atype.setflags(write=False)
+        require(not cell.atoms.pos.flags.writeable, 'harness: read-only unit cell')
+        return cell
     if uform == 'strided':
         buf = np.full((len(c.rel), 6), np.nan)
         buf[:, ::2] = c.rel
@@ -644,7 +649,7 @@ def after_ctor(c, case, labels):
     lm = case.get('lm') or {}
     c.lm = lm
     if lm.get('mut_in'):
-        junk_handed(c, labels, keep=('shift of the coming call',))
+        junk_handed(c, labels, keep=('shift of the coming call',) + (() if lm.get('mut_shift_in') else ('shift',)))
         if not c.callshift:
             probe_shift_alias(c, 'after the arrays handed to Dislocation(...) were overwritten by the caller')
     # (the unit cell and the ElasticConstants object are not overwritten: the object keeps the caller's cell by reference and
@@ -665,10 +670,9 @@ def after_call(c, labels, when, results=None, group=None):
     check_handed(c, 'by ' + when)
     lm = c.lm
     if lm.get('mut_in'):
-        junk_handed(c, labels)
+        junk_handed(c, labels, keep=() if lm.get('mut_shift_in') else ('shift',))
         probe_shift_alias(c, 'after the arrays handed to %s were overwritten by the caller' % when)
-    else:
-        c.handed = []
+    c.handed = []
     if results is None:
         return
     base, disl = results
@@ -694,6 +698,10 @@ def overwrite_shift_attribute(c, labels):
     now = np.array(d.shifts, dtype=float)
     require(_same_bits(before, now), lambda: '.shifts changed from %r to %r when the caller overwrote the array handed out as .shift '
             '(set_shift(shiftindex=i) hands out a view of row i of .shifts)' % (before.tolist(), now.tolist()), key=KEY_ALIAS)
+    for name, obj, snap in c.handed:
+        if isinstance(obj, np.ndarray):
+            require(_same_bits(obj, snap), lambda: 'writing into the array read from .shift wrote into the %s array the caller handed in '
+                    '(set_shift keeps the caller\'s array instead of a copy)' % name, key=KEY_ALIAS)
     labels.add('mut_shift_attribute')
 
 
@@ -1584,7 +1592,12 @@ def _oracle_array(case, out):
     require(np.all(np.diff(oid) > 0) and oid.min() >= 0 and oid.max() < nfull, 'old_id is not strictly increasing within the reference range')
     bp = np.array(base.atoms.pos, dtype=float)
     rb, _ = reduce_mod(bp - fp[oid], vects)       # the same sites; an atom on a box face may be kept on either face
-    require(np.abs(rb).max() <= 1e-9 * (c.s + np.abs(fp).max()), lambda: 'returned base system is not the reference system at old_id (max difference %.3g modulo the box)' % np.abs(rb).max())
+    # E: with an atom a relative < 1e-8 (of the system) short of an upper in-plane face, periodicarray's documented-in-code clean-up
+    # ("atoms left on an upper box face by rounding belong to the lower face", isclose at 1e-8 box-relative) moves it onto the lower
+    # face: by at most 1e-8 box vectors.  Only then the comparison is widened by what that tolerance explains
+    nrf = (case.get('near') or {}).get('face')
+    slack = 1.01e-8 * max(float(np.linalg.norm(vects[c.line])), float(np.linalg.norm(vects[c.motion]))) if nrf and min(abs(x) for x in nrf) < 1e-7 else 0.0
+    require(np.abs(rb).max() <= 1e-9 * (c.s + np.abs(fp).max()) + slack, lambda: 'returned base system is not the reference system at old_id (max difference %.3g modulo the box)' % np.abs(rb).max())
     require(np.array_equal(np.array(base.atoms.atype), ft[oid]), 'returned base atom types differ from the reference at old_id')
     probs = crystal_problems(c, bp, np.array(base.atoms.atype), c.shift)
     require(not probs, lambda: 'returned base system: ' + '; '.join(probs))
@@ -1691,6 +1704,9 @@ def disreg_cases(draw):
           'boundary': {'shape': 'box', 'width': draw(st.sampled_from([0.0, 2.0, 4.0])), 'scale': False}}
     cs['size']['motion'] = max(cs['size']['motion'], 4)
     cs['size'].pop('min', None)
+    cs['units'] = draw(g._PLANS)
+    if cs['units']:
+        cs['disl']['lk'] = 0
     return cs
 
 
@@ -1750,7 +1766,18 @@ def disreg_once(c, case, labels, motion_mult=None):
         base, disl, center, exp, vects = r['base'], r['disl'], r['center'], r['exp'], r['vects']
         periods = [np.array(disl.box.vects)[c.line], np.array(disl.box.vects)[c.motion]]
         L = r['L']
-    xs, dis = am.defect.disregistry(base, disl, m=c.m_ax, n=c.n_ax, planepos=center)
+    margs = [hand(c, 'm', c.m_ax.copy(), 'given')[0], hand(c, 'n', c.n_ax.copy(), 'given')[0], hand(c, 'planepos', np.array(center, dtype=float), 'given')[0]]
+    xs, dis = am.defect.disregistry(base, disl, m=margs[0], n=margs[1], planepos=margs[2])
+    # A / B: the arrays handed out stay what they are when the tool is called again (same and other systems); the systems and
+    # vectors handed in are untouched
+    check_handed(c, 'by disregistry()')
+    c.handed = []
+    c.ledger.add('disregistry coordinates / values (%d atoms)' % base.natoms, [xs, dis], 'disregistry %d' % len(c.ledger.entries))
+    c.ledger.add_system('base system handed to disregistry', base, 'in base %d' % len(c.ledger.entries))
+    c.ledger.add_system('dislocation system handed to disregistry', disl, 'in disl %d' % len(c.ledger.entries))
+    xs2, dis2 = am.defect.disregistry(base, disl, m=c.m_ax, n=c.n_ax, planepos=center)
+    require(_same_bits(xs, xs2) and _same_bits(dis, dis2), 'a second disregistry() call on the same systems returns different arrays')
+    c.ledger.verify('by a later disregistry() call')
     xs, dis = np.asarray(xs, dtype=float), np.asarray(dis, dtype=float)
     require(xs.ndim == 1 and dis.shape == (len(xs), 3) and len(xs) >= 2, lambda: 'disregistry shapes %r %r' % (xs.shape, dis.shape))
     require(np.all(np.diff(xs) > 0), 'disregistry coordinates not strictly increasing')
@@ -1805,6 +1832,10 @@ def disreg_once(c, case, labels, motion_mult=None):
 
 
 def oracle_disregistry(case):
+    return with_units(case, _oracle_disregistry_u)
+
+
+def _oracle_disregistry_u(case, out):
     c = setup(case['disl'])
     labels = labels_of(c)
     if build(c) is None:
@@ -1816,14 +1847,19 @@ def oracle_disregistry(case):
         # mutants/C17/FIX_disregistry_absolute_isclose.diff).  Whatever goes wrong for a crystal whose plane / column spacing is
         # not large against 1e-8 working units is that finding; with the repair the full oracle applies
         try:
-            return _oracle_disregistry(c, case, labels)
+            return _disreg_out(_oracle_disregistry(c, case, labels), out)
         except Violation as v:
             raise Violation('a = %.6g working units: %s' % (c.a, v.detail), key=v.key or KEY_DISREG)
         except ValueError as e:
             if 'planepos must fall between atomic planes' in str(e):
                 raise Violation('a = %.6g working units: disregistry(planepos between two planes) raised ValueError: %s' % (c.a, e), key=KEY_DISREG)
             raise
-    return _oracle_disregistry(c, case, labels)
+    return _disreg_out(_oracle_disregistry(c, case, labels), out)
+
+
+def _disreg_out(labels, out):
+    out['kind'] = 'disregistry ' + '+'.join(sorted(x for x in labels if x.startswith('refusal')))
+    return labels
 
 
 def _oracle_disregistry(c, case, labels):
@@ -1950,6 +1986,132 @@ def oracle_sizemults(case):
     return labels
 
 
+
+# ----------------------------------------------------------------------------- H: enumerated option combinations
+
+def _hx(struct, a, C, hkl, xi, b, mn, **more):
+    cr = {'struct': struct, 'a': a, 'C': C, 'hkl': hkl, 'xi': xi, 'b': b, 'partial': False, 'lk': 0, 'ce': 0, 'mn': mn, 'orient': 0,
+          'forms': None, 'shift': {'kind': 'default'}}
+    cr.update(more)
+    return cr
+
+
+_CUB = {'kind': 'aniso', 'C11': 1.0, 'C12': 0.6, 'C44': 0.3}
+# line along a (default axes), c ('x', 'y') and b ('z', 'x'); rotated cells with mutually orthogonal vectors (the open finding on
+# non-default axis pairs does not touch them); edge, mixed, edge, and a hexagonal 60 degree dislocation in 4-index notation
+H_CRYSTALS = [
+    _hx('fcc_f', 4.05, _CUB, [1, 1, 1], [1, 1, -2], [0.5, -0.5, 0.0], {'kind': 'default'}),
+    _hx('bcc_i', 2.87, _CUB, [1, -1, 0], [1, 1, -2], [0.5, 0.5, 0.5], {'kind': 'str', 'm': 'x', 'n': 'y'}),
+    _hx('sc', 3.0, _CUB, [0, 0, 1], [1, 0, 0], [0.0, 1.0, 0.0], {'kind': 'vecint', 'm': 'z', 'n': 'x'}),
+    _hx('hcp', 3.2, {'kind': 'hex', 'C11': 1.0, 'C12': 0.4, 'C13': 0.3, 'C33': 1.1, 'C44': 0.3}, [0, 0, 1], [1, 0, 0], [0.0, 1.0, 0.0],
+        {'kind': 'default'}, coa=1.62, hex4=True),
+]
+H_CTOR = [{'kind': 'default'}, {'kind': 'index', 'index': 1},
+          {'kind': 'vec', 'index': 2, 'inplane': [0.25, -0.125], 'normal': 0.1},
+          {'kind': 'vecscaled', 'index': 1, 'inplane': [-0.3, 0.2], 'normal': -0.2}]
+H_CALL = {'keep': {'kind': 'keep'}, 'index0': {'kind': 'index0'}, 'index': {'kind': 'index', 'index': 2},
+          'vec': {'kind': 'vec', 'index': 1, 'inplane': [0.1, 0.3], 'normal': 0.15, 'as': 'array'},
+          'vecscaled': {'kind': 'vecscaled', 'index': 2, 'inplane': [-0.2, 0.05], 'normal': -0.1, 'as': 'list'},
+          'zero': {'kind': 'zero', 'variant': 'float', 'index': 1},
+          'indexneg': {'kind': 'index', 'index': -1},
+          'vecx': {'kind': 'vec', 'index': 1, 'inplane': [0.0, 0.0], 'normal': 0.0, 'as': 'tuple'}}
+H_FIRST_KINDS = ('keep', 'index0', 'index', 'vec', 'vecscaled', 'zero')
+
+
+def _hcase(cr, gen, hist, size, center, boundary, k):
+    cs = {'disl': json_copy(cr), 'gen': gen, 'size': size, 'center': center, 'boundary': dict(boundary), 'hist': hist, 'lm': None, 'units': None}
+    if gen == 'periodicarray':
+        cs['boundary']['shape'] = 'box'
+        cs['linear'] = k % 3 == 0
+        cs['cutoff'] = None
+    return cs
+
+
+def json_copy(x):
+    import json
+    return json.loads(json.dumps(x))
+
+
+def options_shift_cases(tier):
+    """H: everything that sets the ONE piece of state `shift` - the constructor's shift / shiftindex / shiftscale, the shift
+    arguments of an earlier monopole() / periodicarray() call, those of the judged call - in every combination and order:
+    constructor choice x (no earlier call | generator x its shift choice) x judged generator x its shift choice"""
+    out = []
+    crystals = H_CRYSTALS[:1] if tier == 'quick' else H_CRYSTALS
+    firsts = [None] + [(gen, kind) for gen in ('monopole', 'periodicarray') for kind in H_FIRST_KINDS]
+    k = 0
+    for cr0 in crystals:
+        for ctor in H_CTOR:
+            for first in firsts:
+                for gen in ('monopole', 'periodicarray'):
+                    for name, call in H_CALL.items():
+                        if name == 'keep' and first is not None and first[1] != 'keep':
+                            continue            # nothing says which shift applies then
+                        cr = json_copy(cr0)
+                        cr['shift'] = ctor
+                        if first is None and name == 'keep':
+                            hist = None
+                        else:
+                            hist = {'first': None, 'call': json_copy(call)}
+                            if first is not None:
+                                hist['first'] = {'gen': first[0], 'shift': json_copy(H_CALL[first[1]]), 'size': {'line': 1, 'motion': 4, 'cut': 2, 'tuple': False},
+                                                 'center': {'kind': 'abs', 'm': -0.1, 'n': -0.25, 'l': 0.5}, 'boundary': {'shape': 'cylinder', 'width': 1.0, 'scale': False},
+                                                 'linear': k % 2 == 0}
+                        out.append(_hcase(cr, gen, hist, {'line': 1, 'motion': 6, 'cut': 4, 'tuple': k % 4 == 0},
+                                          {'kind': 'abs', 'm': 0.05, 'n': 0.2, 'l': 0.3}, {'shape': 'box', 'width': 1.5, 'scale': False}, k))
+                        k += 1
+    return out
+
+
+H_MINS = {'a': 17.3, 'b': 23.9, 'c': 12.7}
+H_BOUNDARY = [{'shape': 'cylinder', 'width': 0.0, 'scale': False}, {'shape': 'cylinder', 'width': 1.7, 'scale': False},
+              {'shape': 'cylinder', 'width': 2.3, 'scale': True}, {'shape': 'box', 'width': 1.7, 'scale': False}, {'shape': 'box', 'width': 2.3, 'scale': True}]
+H_CENTER = [{'kind': 'none'}, {'kind': 'abs', 'm': 0.1, 'n': 0.2, 'l': 0.4}, {'kind': 'scaled', 'm': -0.15, 'n': -0.1, 'l': 0.7}, {'kind': 'int', 'm': 2, 'l': 1}]
+
+
+def options_size_cases(tier):
+    """H: the options that set the multipliers - sizemults absent (documented default) / list / tuple with every subset of amin,
+    bmin, cmin, for a line along each of the three box vectors - each with every boundary shape / width / boundaryscale choice
+    and every centre / centerscale choice"""
+    import itertools
+    out = []
+    crystals = H_CRYSTALS[:3] if tier == 'quick' else H_CRYSTALS
+    k = 0
+    for cr0 in crystals:
+        for gen in ('monopole', 'periodicarray'):
+            for r in range(4):
+                for sub in itertools.combinations('abc', r):
+                    for smform in ('default', 'list', 'tuple'):
+                        nb = len(H_BOUNDARY) if tier != 'quick' else 1
+                        for j in range(nb):
+                            size = {'line': 1, 'motion': 2, 'cut': 2, 'tuple': smform == 'tuple', 'mins': [[ax, H_MINS[ax] + 1.1 * k % 7] for ax in sub]}
+                            if smform == 'default':
+                                size['default'] = True
+                            out.append(_hcase(cr0, gen, None, size, H_CENTER[(k + j) % len(H_CENTER)], H_BOUNDARY[(k + j) % len(H_BOUNDARY)], k))
+                        k += 1
+            # boundary x centre options in every pair (multipliers fixed)
+            for bd in H_BOUNDARY:
+                for cen in H_CENTER:
+                    out.append(_hcase(cr0, gen, None, {'line': 2, 'motion': 4, 'cut': 4, 'tuple': False}, cen, bd, k))
+                    k += 1
+    return out
+
+
+def oracle_options(case):
+    labels = set((oracle_monopole if case['gen'] == 'monopole' else oracle_array)(case))
+    labels.add('gen_' + case['gen'])
+    h = case.get('hist')
+    if h and h.get('first'):
+        labels.add('first_' + h['first']['gen'] + '_' + h['first']['shift']['kind'])
+    if h:
+        labels.add('call_' + h['call']['kind'])
+    labels.add('ctor_' + case['disl']['shift']['kind'])
+    nm = len(case['size'].get('mins', []))
+    if 'mins' in case['size']:
+        labels.add('mins_%d' % nm)
+    return labels
+
+
 # length-scale guards at half the share observed on the unchanged tree, where the open finding KEY_TOL excludes every case with a
 # cell <= 1e-2 working units and a third of those at 1e6 (shares over the remaining cases there: scaled 0.16-0.22, scaled_large
 # 0.10-0.19, scaled_small 0.035-0.08, nt_scaled 0.044-0.14; behind the repair: 0.33-0.47, 0.08-0.13, 0.20-0.34, 0.15-0.27, and
@@ -1978,6 +2140,10 @@ CLAUSES = [
            min_share=dict({'nt': 0.05, 'tail': 0.12, 'exact_linear': 0.03, 'bookkeeping': 0.15, 'tripled': 0.01}, **SCALE_SHARE),
            max_share=dict({'refusal': 0.25}, **SOLVER_SHARE),
            desc='disregistry across the slip plane accumulates to b up to the analytic tail bound (exactly b (x_hi-x_lo)/L for the linear field); error shrinks when the width is tripled'),
+    Clause('options_shift', oracle_options, enumerate=options_shift_cases, nontrivial=lambda labels: 'history_second_call' in labels,
+           desc='H: constructor shift choice x earlier call (generator x shift choice) x judged generator x shift choice, enumerated; judged by the monopole / array oracles'),
+    Clause('options_size', oracle_options, enumerate=options_size_cases, nontrivial=lambda labels: 'min_raised_mult' in labels or 'default_sizemults' in labels,
+           desc='H: sizemults absent / list / tuple x every subset of amin, bmin, cmin x line along a, b, c; boundary shape / width / scale x centre / centerscale pairs; enumerated'),
     Clause('sizemults', oracle_sizemults, sizemults_cases, quick=400, thorough=4000, min_share={'monopole': 0.1, 'scaled': 0.075}, max_share=SOLVER_SHARE,
            desc='sizemults as the documented tuple equals the list result; a list argument is left untouched and the call is repeatable'),
 ]
